@@ -21,12 +21,15 @@
      ReLU = PReLU(0), LReLU = PReLU(1/100)                    BACKWARD(ReLU/LReLU): prelu_bw(.., 0 / .01)
      PowN (int32 exponent)                                    pown_fw / pown_bw
      Divide, Pow                                              CPUDEV_FW_AB / divide_bw_impl, pow_bw_impl
-                                                              (B-vs-1 broadcasting and folding as Multiply) *)
+                                                              (B-vs-1 broadcasting and folding as Multiply)
+     Max, Min along an axis                                   max_fw / max_bw (first extremal index, break):
+                                                              Tensor/AdjMax.v; derivative when the extremum
+                                                              is attained once *)
 From Coq Require Import List NArith ZArith Bool Arith Lia Ring Reals RealField Lra.
 From PV Require Import Graph.OpFamily Graph.Tape Graph.Lazy Graph.Backward Graph.TapeLemmas Graph.LazyProofs
   Graph.BackwardProofs Graph.ADProof Tensor.Kernels Tensor.Index Tensor.ProofsBilinear
   Scalar.ScalarBase Gen.ScalarGen Scalar.Deriv Scalar.Pown
-  Tensor.AdjCore Tensor.AdjMatmul Tensor.GraphInst.
+  Tensor.AdjCore Tensor.AdjMatmul Tensor.GraphInst Tensor.AdjMax.
 Import ListNotations.
 Local Open Scope R_scope.
 
@@ -70,7 +73,9 @@ Inductive rop :=
 | RReLU (s : tshape)
 | RLReLU (s : tshape)
 | RPowN (s : tshape) (k : Z)
-| RBin (b : bop) (sa sb : tshape).
+| RBin (b : bop) (sa sb : tshape)
+| RMax (sx sy : tshape) (dim : nat)
+| RMin (sx sy : tshape) (dim : nat).
 
 Notation opdescR := (@opdesc R).
 Definition describeR (o : rop) : opdescR :=
@@ -83,6 +88,8 @@ Definition describeR (o : rop) : opdescR :=
   | RPowN s k => uny_desc 0 1 Rplus Rmult s (fun x => fw_pown x k) (fun x y g => bw_pown x y g k)
   | RBin b sa sb =>
       ewy_desc 0 Rplus sa sb (b_fw b) (b_jvp b) (fun g x y z => b_bw_a b x y z g) (fun g x y z => b_bw_b b x y z g)
+  | RMax sx sy dim => ext_desc rgt sx sy dim
+  | RMin sx sy dim => ext_desc rlt sx sy dim
   end.
 
 Definition real_family : OpFamily rop tshape (@OpFamily.vec R) :=
@@ -93,7 +100,7 @@ Definition real_jvp : JvpFamily (R := R) rop := desc_jvp describeR.
 
 Theorem describeR_LA (o : rop) : desc_LA 0 Rplus Rmult (describeR o).
 Proof.
-  destruct o as [c|u s|c s k|s|s|s k|b sa sb]; cbn [describeR].
+  destruct o as [c|u s|c s k|s|s|s k|b sa sb|sx sy dim|sx sy dim]; cbn [describeR].
   - apply (describe_LA 0 1 Rplus Rmult Rminus Ropp RthR).
   - apply (uny_LA 0 1 Rplus Rmult Rminus Ropp RthR). intros x y g.
     destruct (bw_linear_unary x y g) as (H1 & H2 & H3 & H4 & H5 & H6 & H7 & H8 & H9 & H10). destruct u; assumption.
@@ -105,6 +112,8 @@ Proof.
   - apply (ewy_LA 0 1 Rplus Rmult Rminus Ropp RthR). intros g x y dx dy. unfold b_jvp.
     destruct (bw_linear_binary x y (b_fw b x y) g) as (_ & _ & _ & _ & _ & _ & H7 & H8 & H9 & H10).
     destruct b; cbn [b_bw_a b_bw_b b_fw] in *; [rewrite H7, H8|rewrite H9, H10]; ring.
+  - apply ext_LA.
+  - apply ext_LA.
 Qed.
 
 Theorem real_LocalAdjoint (o : rop) : LocalAdjoint 0 Rplus Rmult real_family real_jvp tsize o.
